@@ -1,7 +1,7 @@
 (* C08 — time and async sources emit exactly what and when they promise. *)
 From RxModel Require Import Timed Async.
 From RxSpec Require Import TimedSpec.
-From RxProofs Require TimedLaws AsyncLaws.
+From RxProofs Require TimedLaws AsyncLaws IntervalAtLaws.
 Open Scope N_scope.
 
 (* For EVERY sequence of labels (polls of any task at any time, clock advances of any size,
@@ -22,6 +22,28 @@ Theorem C08_interval_prompt :
   forall p n, 0 < p ->
     TimedLaws.touts (run_timed (TInterval p) (TimedLaws.prompt_rounds p n)) = TimedLaws.expected_ticks p 0 0 n.
 Proof. exact TimedLaws.interval_prompt. Qed.
+
+(* interval_at under such an executor: the first tick at the given instant - at the first poll when
+   the instant has been reached already (offset 0) - and each later one exactly one period later *)
+Theorem C08_interval_at_prompt :
+  forall dl p n, 0 < dl -> 0 < p ->
+    TimedLaws.touts (run_timed (TIntervalAt dl p) (LRun 0 :: LAdv dl :: LRun 0 :: TimedLaws.prompt_rounds p n))
+    = TOut dl (Next (VZ 0)) :: TimedLaws.expected_ticks p 1 dl n.
+Proof. exact IntervalAtLaws.interval_at_prompt. Qed.
+
+Theorem C08_interval_at_prompt_now :
+  forall p n, 0 < p ->
+    TimedLaws.touts (run_timed (TIntervalAt 0 p) (LRun 0 :: TimedLaws.prompt_rounds p n))
+    = TOut 0 (Next (VZ 0)) :: TimedLaws.expected_ticks p 1 0 n.
+Proof. exact IntervalAtLaws.interval_at_prompt_now. Qed.
+
+(* the exact observation the oracle expects of the implementation on these label sequences
+   (Spec/TimedSpec.prompt_case, marks included) is the model's *)
+Theorem C08_prompt_case_exact :
+  forall o n ls out, prompt_case o n = Some (ls, out) ->
+    match o with TInterval p | TIntervalAt _ p => 0 < p | _ => True end ->
+    run_timed o ls = out.
+Proof. exact IntervalAtLaws.prompt_case_exact. Qed.
 
 (* timer: its item once, not before the due time, then completion; nothing after unsubscribe *)
 Theorem C08_timer :
@@ -61,6 +83,14 @@ Check C08_interval : forall p ls, interval_ok p p ls (run_timed (TInterval p) ls
 Check C08_interval_at : forall dl p ls, interval_ok dl p ls (run_timed (TIntervalAt dl p) ls) = true.
 Check C08_interval_prompt : forall p n, 0 < p ->
     TimedLaws.touts (run_timed (TInterval p) (TimedLaws.prompt_rounds p n)) = TimedLaws.expected_ticks p 0 0 n.
+Check C08_interval_at_prompt : forall dl p n, 0 < dl -> 0 < p ->
+    TimedLaws.touts (run_timed (TIntervalAt dl p) (LRun 0 :: LAdv dl :: LRun 0 :: TimedLaws.prompt_rounds p n))
+    = TOut dl (Next (VZ 0)) :: TimedLaws.expected_ticks p 1 dl n.
+Check C08_interval_at_prompt_now : forall p n, 0 < p ->
+    TimedLaws.touts (run_timed (TIntervalAt 0 p) (LRun 0 :: TimedLaws.prompt_rounds p n))
+    = TOut 0 (Next (VZ 0)) :: TimedLaws.expected_ticks p 1 0 n.
+Check C08_prompt_case_exact : forall o n ls out, prompt_case o n = Some (ls, out) ->
+    match o with TInterval p | TIntervalAt _ p => 0 < p | _ => True end -> run_timed o ls = out.
 Check C08_timer : forall v d ls, timer_ok v d ls (run_timed (TTimer v d) ls) = true.
 Check C08_async_prefix : forall k n s, a_keep s = true -> a_finished s = false ->
     exists rest, yields k (a_script s) = AsyncLaws.outs (arun' k s (repeat APoll n)) ++ rest.
@@ -77,6 +107,9 @@ Check C08_async_silent_after_unsub : forall k ls s, a_keep s = false -> AsyncLaw
 Print Assumptions C08_interval.
 Print Assumptions C08_interval_at.
 Print Assumptions C08_interval_prompt.
+Print Assumptions C08_interval_at_prompt.
+Print Assumptions C08_interval_at_prompt_now.
+Print Assumptions C08_prompt_case_exact.
 Print Assumptions C08_timer.
 Print Assumptions C08_async_prefix.
 Print Assumptions C08_async_complete.
